@@ -179,6 +179,26 @@ def evaluate(case):
                     q2, s2 = st2.q_master[st2.sq_title], st2.sq_master[st2.sq_title]
                     if len(q2) != len(x) or exceeds(np.abs(q2 - x).max(), 1e-12) or exceeds(np.abs(s2 - y).max(), 5e-12):
                         fails.append("feeding the written S(Q) back in does not reproduce the merged grid and values")
+                    elif len(x) >= 2:
+                        # the same Files entry (dictionary) read again after the file it names was written anew with another curve
+                        entry = {"Filename": os.path.join(d, name), "ReciprocalFunction": "S(Q)"}
+                        sta = StoG()
+                        sta.read_dataset(entry)
+                        stw = StoG(**{"Outputs": {"StemName": case["stem"]}})
+                        stw.q_master[stw.sq_title] = x
+                        stw.sq_master[stw.sq_title] = y * 0.5 + 0.25
+                        cwd2 = os.getcwd()
+                        os.chdir(d)
+                        try:
+                            stw.write_out_merged_sq(name)
+                        finally:
+                            os.chdir(cwd2)
+                        stb = StoG()
+                        stb.read_dataset(entry)
+                        stb.merge_data()
+                        pos18 = x > 0          # at Q = 0 the merged S(Q) is the conventional 1 whatever was read
+                        if len(stb.sq_master[stb.sq_title]) != len(x) or exceeds(np.abs(stb.sq_master[stb.sq_title] - (y * 0.5 + 0.25))[pos18].max(initial=0.0), 5e-12):
+                            fails.append("a Files entry that was read once returns the old curve after the file it names was rewritten (the re-read does not look at the file)")
                 except Exception as ex:  # noqa: BLE001
                     fails.append(f"feeding a written {len(x)}-row S(Q) file back in as a dataset raises {type(ex).__name__}: {str(ex)[:80]}")
     finally:
